@@ -1,8 +1,8 @@
 package gen
 
 import (
-	"encoding/base64"
 	"bytes"
+	"encoding/base64"
 	"encoding/json"
 	"fmt"
 	"math/big"
@@ -43,13 +43,13 @@ var numPool = []string{"0", "1", "-1", "7", "42", "-0", "1.5", "-1.5", "0.1", "1
 
 // Options select the subset of data that a format can represent.
 type DataOpts struct {
-	MaxDepth  int
-	NoNull    bool // TOML
-	Int64Only bool // TOML
-	NoFloatExp bool
-	Keys      []string // extra keys
-	ASCIIKeys bool
-	NoEmptyKey bool
+	MaxDepth    int
+	NoNull      bool // TOML
+	Int64Only   bool // TOML
+	NoFloatExp  bool
+	Keys        []string // extra keys
+	ASCIIKeys   bool
+	NoEmptyKey  bool
 	NoMultiLine bool
 }
 
